@@ -1,4 +1,6 @@
 #!/bin/bash
 # sweep.sh: every seeded change against its own property's check. Output: one line per seed.
-cd /verif
+cd "$(dirname "$0")/.."
+[ -n "$VP_RUN_REPO" ] && export VERIF_REPO=$VP_RUN_REPO
+./setup.sh >/dev/null 2>&1
 for d in seeded/*/; do s=$(basename $d); p=${s:0:3}; timeout 1200 tools/seedrun.sh $s $p 2>&1 | grep "^\[" ; done
